@@ -2,7 +2,7 @@
   C02/C11 model driver (shared request handling). Line protocol (S-expressions, one per line):
 
   executor level
-    (run query|mutation (<field>…) (<mask>…))
+    (run query|mutation|mutation-settle (<field>…) (<mask>…))
       field := (f <key> true|false sync|promise|pre|meta none|(e "<msg>") <comp>)
       comp  := null | (s "<json leaf>") | (bad "<msg>") | (list true|false <comp>…) | (obj <field>…)
     → (out "<data json>" ((err "<path json>" "<msg>")…) <idle rounds> <promises created> ((ev start|fulfil "<path json>")…)
@@ -84,8 +84,12 @@ def outSexp (rq : Request) (o : Outcome) : Sexp :=
 def handleRun (kind : String) (fields : List Sexp) (sched : List Sexp) : Option Sexp := do
   let fields ← fields.mapM parseField
   let sched ← sched.mapM Sexp.nat?
-  let mutation ← (match kind with | "query" => some false | "mutation" => some true | _ => none)
-  let rq : Request := { mutation := mutation, fields := fields, sched := sched }
+  let (mutation, settle) ← (match kind with
+    | "query" => some (false, false)
+    | "mutation" => some (true, false)
+    | "mutation-settle" => some (true, true)     -- the executor with the repair of F-11a
+    | _ => none)
+  let rq : Request := { mutation := mutation, fields := fields, sched := sched, settle := settle }
   pure (outSexp rq (run rq))
 
 /-! combinator level -/
